@@ -18,6 +18,8 @@ import EPV.Gen.BlakeInitENu
 import EPV.Spec.Blake
 import EPV.Lemmas.Blake
 import EPV.Lemmas.BlakeModuli
+import EPV.Lemmas.BlakeFields
+import EPV.Lemmas.BlakeAccept
 import EPV.Tactics
 
 set_option linter.all false
@@ -26,47 +28,39 @@ open EPV EPV.Gen EPV.Spec.Blake EPV.Blake
 
 namespace EPV.C20
 
-/-- pair (G, E), constructor: an accepting path ends with one positive-definite isotropic material that
-reproduces the two supplied values; the problem parameters and the supplied values are the documented
-admissible ones -/
+/-- pair (G, E): an accepting path of the constructor is an accepting path of `set_elastic_params` on the two
+supplied values, followed by the four problem-parameter checks; the six attributes are what it returned -/
+theorem initGE_bridge (p : BlakeInitGE.P) (h : BlakeInitGE.outcome p = .ok) :
+    BlakeModGE.outcome { shear_mod := p.shear_mod, youngs_mod := p.youngs_mod } = .ok ∧ DocumentedProblem p.geometry p.ref_density p.cavity_radius p.pressure_scale
+    ∧ BlakeInitGE.lame_mod p = BlakeModGE.lame_mod { shear_mod := p.shear_mod, youngs_mod := p.youngs_mod }
+    ∧ BlakeInitGE.shear_mod p = BlakeModGE.shear_mod { shear_mod := p.shear_mod, youngs_mod := p.youngs_mod }
+    ∧ BlakeInitGE.youngs_mod p = BlakeModGE.youngs_mod { shear_mod := p.shear_mod, youngs_mod := p.youngs_mod }
+    ∧ BlakeInitGE.poisson_ratio p = BlakeModGE.poisson_ratio { shear_mod := p.shear_mod, youngs_mod := p.youngs_mod }
+    ∧ BlakeInitGE.bulk_mod p = BlakeModGE.bulk_mod { shear_mod := p.shear_mod, youngs_mod := p.youngs_mod }
+    ∧ BlakeInitGE.long_mod p = BlakeModGE.long_mod { shear_mod := p.shear_mod, youngs_mod := p.youngs_mod } := by
+  unfold BlakeInitGE.outcome at h
+  unfold BlakeInitGE.lame_mod BlakeInitGE.shear_mod BlakeInitGE.youngs_mod BlakeInitGE.poisson_ratio BlakeInitGE.bulk_mod BlakeInitGE.long_mod
+  epv_walk (
+    simp only [epv_tree, epv_cond, DocumentedProblem] at *
+    simp only [*, if_true, if_false, not_true_eq_false, not_false_eq_true, and_self, true_and]
+    exact ⟨rfl, rfl, rfl, rfl, rfl, rfl⟩)
+
+/-- pair (G, E), constructor: on acceptance the six attributes are one positive-definite isotropic material that
+reproduces the two supplied values (the hypotheses of the C15 field theorems hold for the constructed solver) -/
 theorem initGE_ok (p : BlakeInitGE.P) (h : BlakeInitGE.outcome p = .ok) :
     IsoMaterial (BlakeInitGE.lame_mod p) (BlakeInitGE.shear_mod p) (BlakeInitGE.youngs_mod p) (BlakeInitGE.poisson_ratio p) (BlakeInitGE.bulk_mod p) (BlakeInitGE.long_mod p)
-      ∧ BlakeInitGE.shear_mod p = p.shear_mod ∧ BlakeInitGE.youngs_mod p = p.youngs_mod ∧ DocumentedProblem p.geometry p.ref_density p.cavity_radius p.pressure_scale
-      ∧ Kind.GivenOk .shear p.shear_mod ∧ Kind.GivenOk .youngs p.youngs_mod := by
-  epv_paths (
-    simp only [epv_cond] at *
-    simp only [epv_leaf, Kind.GivenOk]
-    simp only [not_le, not_lt] at *
-    have hG : 0 < p.shear_mod := by linarith
-    have hE : 0 < p.youngs_mod := by linarith
-    have hlt : p.youngs_mod < 3 * p.shear_mod := by
-      have h2G : 0 < 2 * p.shear_mod := by linarith
-      have := (div_lt_iff₀ h2G).mp (by linarith : p.youngs_mod / (2 * p.shear_mod) < 3 / 2)
-      linarith
-    have h1 : 3 * p.shear_mod - p.youngs_mod ≠ 0 := by intro h0; linarith
-    have h1p : 0 < 3 * p.shear_mod - p.youngs_mod := by linarith
-    have hG0 : p.shear_mod ≠ 0 := ne_of_gt hG
-    have e1 : 3 * (p.shear_mod * (p.youngs_mod - 2 * p.shear_mod) / (3 * p.shear_mod - p.youngs_mod)) + 2 * p.shear_mod
-        = p.shear_mod * p.youngs_mod / (3 * p.shear_mod - p.youngs_mod) := by fsimp; ring1
-    have e2 : p.shear_mod * (p.youngs_mod - 2 * p.shear_mod) / (3 * p.shear_mod - p.youngs_mod) + p.shear_mod
-        = p.shear_mod * p.shear_mod / (3 * p.shear_mod - p.youngs_mod) := by fsimp; ring1
-    have h2 : p.shear_mod * (p.youngs_mod - 2 * p.shear_mod) / (3 * p.shear_mod - p.youngs_mod) + p.shear_mod ≠ 0 := by
-      rw [e2]; positivity
-    have h3 : 0 < 3 * (p.shear_mod * (p.youngs_mod - 2 * p.shear_mod) / (3 * p.shear_mod - p.youngs_mod)) + 2 * p.shear_mod := by
-      rw [e1]; positivity
-    refine ⟨IsoMaterial.of_mul ?_ ?_ ?_ ?_ ?_ ?_, ?_, ?_, ⟨?_, ?_, ?_, ?_⟩, ?_, ?_⟩ <;> first | trivial | assumption | linarith | ring1 | (fsimp <;> ring1) | exact ⟨by linarith, by linarith⟩)
+      ∧ BlakeInitGE.shear_mod p = p.shear_mod ∧ BlakeInitGE.youngs_mod p = p.youngs_mod := by
+  obtain ⟨hm, -, e1, e2, e3, e4, e5, e6⟩ := initGE_bridge p h
+  rw [e1, e2, e3, e4, e5, e6]
+  exact EPV.Blake.modGE_ok _ hm
 
 /-- pair (G, E): the constructor **accepts ⇔ the input is documented-valid** -/
 theorem initGE_accepts_iff (p : BlakeInitGE.P) :
     BlakeInitGE.outcome p = .ok ↔ (DocumentedPair .shear .youngs p.shear_mod p.youngs_mod ∧ ¬ NearSingular p.youngs_mod (3 * p.shear_mod)) ∧ DocumentedProblem p.geometry p.ref_density p.cavity_radius p.pressure_scale := by
   constructor
   · intro h
-    obtain ⟨m, e1, e2, d, g1, g2⟩ := initGE_ok p h
-    refine ⟨⟨⟨g1, g2, _, _, m.shear_pos, m.bulk_pos, ?_, ?_⟩, ?_⟩, d⟩
-    · rw [← e1]; exact m.kind_of.2.1
-    · rw [← e2]; exact m.kind_of.2.2.1
-    · clear m e1 e2 d g1 g2
-      epv_paths (simp only [epv_cond] at *; simp only [NearSingular, reltol]; assumption)
+    obtain ⟨hm, d, -⟩ := initGE_bridge p h
+    exact ⟨(EPV.Blake.modGE_accepts_iff _).mp hm, d⟩
   · rintro ⟨⟨⟨hx, hy, L, G, hG, hB, h1, h2⟩, hband⟩, hgeo, hrho, hrad, hprs⟩
     simp only [Kind.of, Kind.GivenOk] at hx hy h1 h2
     have hLG : 0 < L + G := by linarith
@@ -100,47 +94,59 @@ theorem initGE_accepts_iff (p : BlakeInitGE.P) :
     have hc10 : BlakeInitGE.c10 p := by simp only [epv_cond]; exact hprs
     simp only [epv_tree, hc0, hc1, hc2, hc4, hc5, hc6, hc7, hc8, hc9, hc10, if_true, if_false, ite_self]
 
+/-- pair (G, E): **the constructed solver is in the domain of the C15 field theorems** — the attributes `_run` reads
+(a, ρ₀, P₀ as supplied, λ, G, ν, M as the constructor computed them) form an admissible problem
+(`EPV.Blake.Admissible`: one positive-definite isotropic material, ρ₀, a, P₀ > 0) -/
+theorem initGE_admissible (p : BlakeInitGE.P) (h : BlakeInitGE.outcome p = .ok) :
+    EPV.Blake.Admissible
+      { cavity_radius := p.cavity_radius, lame_mod := BlakeInitGE.lame_mod p, long_mod := BlakeInitGE.long_mod p,
+        poisson_ratio := BlakeInitGE.poisson_ratio p, pressure_scale := p.pressure_scale, ref_density := p.ref_density,
+        shear_mod := BlakeInitGE.shear_mod p } := by
+  obtain ⟨m, -, -⟩ := initGE_ok p h
+  obtain ⟨-, hρ, ha, hP⟩ := (initGE_bridge p h).2.1
+  exact ⟨⟨_, _, m⟩, hρ, ha, hP⟩
+
 /-- pair (G, E): the constructor returns or raises `ValueError`, nothing else -/
 theorem initGE_total (p : BlakeInitGE.P) : BlakeInitGE.outcome p = .ok ∨ BlakeInitGE.outcome p = .raise "ValueError" := by
+  unfold BlakeInitGE.outcome
   epv_ok_or_valueError
 
 theorem initGE_raise (p : BlakeInitGE.P) (h : BlakeInitGE.outcome p ≠ .ok) : BlakeInitGE.outcome p = .raise "ValueError" :=
   (initGE_total p).resolve_left h
 
-/-- pair (G, ν), constructor: an accepting path ends with one positive-definite isotropic material that
-reproduces the two supplied values; the problem parameters and the supplied values are the documented
-admissible ones -/
+/-- pair (G, ν): an accepting path of the constructor is an accepting path of `set_elastic_params` on the two
+supplied values, followed by the four problem-parameter checks; the six attributes are what it returned -/
+theorem initGNu_bridge (p : BlakeInitGNu.P) (h : BlakeInitGNu.outcome p = .ok) :
+    BlakeModGNu.outcome { shear_mod := p.shear_mod, poisson_ratio := p.poisson_ratio } = .ok ∧ DocumentedProblem p.geometry p.ref_density p.cavity_radius p.pressure_scale
+    ∧ BlakeInitGNu.lame_mod p = BlakeModGNu.lame_mod { shear_mod := p.shear_mod, poisson_ratio := p.poisson_ratio }
+    ∧ BlakeInitGNu.shear_mod p = BlakeModGNu.shear_mod { shear_mod := p.shear_mod, poisson_ratio := p.poisson_ratio }
+    ∧ BlakeInitGNu.youngs_mod p = BlakeModGNu.youngs_mod { shear_mod := p.shear_mod, poisson_ratio := p.poisson_ratio }
+    ∧ BlakeInitGNu.poisson_ratio p = BlakeModGNu.poisson_ratio { shear_mod := p.shear_mod, poisson_ratio := p.poisson_ratio }
+    ∧ BlakeInitGNu.bulk_mod p = BlakeModGNu.bulk_mod { shear_mod := p.shear_mod, poisson_ratio := p.poisson_ratio }
+    ∧ BlakeInitGNu.long_mod p = BlakeModGNu.long_mod { shear_mod := p.shear_mod, poisson_ratio := p.poisson_ratio } := by
+  unfold BlakeInitGNu.outcome at h
+  unfold BlakeInitGNu.lame_mod BlakeInitGNu.shear_mod BlakeInitGNu.youngs_mod BlakeInitGNu.poisson_ratio BlakeInitGNu.bulk_mod BlakeInitGNu.long_mod
+  epv_walk (
+    simp only [epv_tree, epv_cond, DocumentedProblem] at *
+    simp only [*, if_true, if_false, not_true_eq_false, not_false_eq_true, and_self, true_and]
+    exact ⟨rfl, rfl, rfl, rfl, rfl, rfl⟩)
+
+/-- pair (G, ν), constructor: on acceptance the six attributes are one positive-definite isotropic material that
+reproduces the two supplied values (the hypotheses of the C15 field theorems hold for the constructed solver) -/
 theorem initGNu_ok (p : BlakeInitGNu.P) (h : BlakeInitGNu.outcome p = .ok) :
     IsoMaterial (BlakeInitGNu.lame_mod p) (BlakeInitGNu.shear_mod p) (BlakeInitGNu.youngs_mod p) (BlakeInitGNu.poisson_ratio p) (BlakeInitGNu.bulk_mod p) (BlakeInitGNu.long_mod p)
-      ∧ BlakeInitGNu.shear_mod p = p.shear_mod ∧ BlakeInitGNu.poisson_ratio p = p.poisson_ratio ∧ DocumentedProblem p.geometry p.ref_density p.cavity_radius p.pressure_scale
-      ∧ Kind.GivenOk .shear p.shear_mod ∧ Kind.GivenOk .poisson p.poisson_ratio := by
-  epv_paths (
-    simp only [epv_cond] at *
-    simp only [epv_leaf, Kind.GivenOk]
-    simp only [not_le, not_lt] at *
-    have hG : 0 < p.shear_mod := by linarith
-    have h1p : 0 < 1 - 2 * p.poisson_ratio := by linarith
-    have h1 : 1 - 2 * p.poisson_ratio ≠ 0 := ne_of_gt h1p
-    have hn : 0 < 1 + p.poisson_ratio := by linarith
-    have e1 : 3 * (2 * p.shear_mod * p.poisson_ratio / (1 - 2 * p.poisson_ratio)) + 2 * p.shear_mod
-        = 2 * p.shear_mod * (1 + p.poisson_ratio) / (1 - 2 * p.poisson_ratio) := by fsimp; ring1
-    have e2 : 2 * p.shear_mod * p.poisson_ratio / (1 - 2 * p.poisson_ratio) + p.shear_mod
-        = p.shear_mod / (1 - 2 * p.poisson_ratio) := by fsimp; ring1
-    have h2 : 2 * p.shear_mod * p.poisson_ratio / (1 - 2 * p.poisson_ratio) + p.shear_mod ≠ 0 := by
-      rw [e2]; positivity
-    have h3 : 0 < 3 * (2 * p.shear_mod * p.poisson_ratio / (1 - 2 * p.poisson_ratio)) + 2 * p.shear_mod := by
-      rw [e1]; positivity
-    refine ⟨IsoMaterial.of_mul ?_ ?_ ?_ ?_ ?_ ?_, ?_, ?_, ⟨?_, ?_, ?_, ?_⟩, ?_, ?_⟩ <;> first | trivial | assumption | linarith | ring1 | (fsimp <;> ring1) | exact ⟨by linarith, by linarith⟩)
+      ∧ BlakeInitGNu.shear_mod p = p.shear_mod ∧ BlakeInitGNu.poisson_ratio p = p.poisson_ratio := by
+  obtain ⟨hm, -, e1, e2, e3, e4, e5, e6⟩ := initGNu_bridge p h
+  rw [e1, e2, e3, e4, e5, e6]
+  exact EPV.Blake.modGNu_ok _ hm
 
 /-- pair (G, ν): the constructor **accepts ⇔ the input is documented-valid** -/
 theorem initGNu_accepts_iff (p : BlakeInitGNu.P) :
     BlakeInitGNu.outcome p = .ok ↔ (DocumentedPair .shear .poisson p.shear_mod p.poisson_ratio) ∧ DocumentedProblem p.geometry p.ref_density p.cavity_radius p.pressure_scale := by
   constructor
   · intro h
-    obtain ⟨m, e1, e2, d, g1, g2⟩ := initGNu_ok p h
-    refine ⟨⟨g1, g2, _, _, m.shear_pos, m.bulk_pos, ?_, ?_⟩, d⟩
-    · rw [← e1]; exact m.kind_of.2.1
-    · rw [← e2]; exact m.kind_of.2.2.2.1
+    obtain ⟨hm, d, -⟩ := initGNu_bridge p h
+    exact ⟨(EPV.Blake.modGNu_accepts_iff _).mp hm, d⟩
   · rintro ⟨⟨hx, hy, L, G, hG, hB, h1, h2⟩, hgeo, hrho, hrad, hprs⟩
     simp only [Kind.of, Kind.GivenOk] at hx hy h1 h2
     have hLG : 0 < L + G := by linarith
@@ -162,37 +168,59 @@ theorem initGNu_accepts_iff (p : BlakeInitGNu.P) :
     have hc7 : BlakeInitGNu.c7 p := by simp only [epv_cond]; exact hprs
     simp only [epv_tree, hc0, hc1, hc2, hc3, hc4, hc5, hc6, hc7, if_true, if_false, ite_self]
 
+/-- pair (G, ν): **the constructed solver is in the domain of the C15 field theorems** — the attributes `_run` reads
+(a, ρ₀, P₀ as supplied, λ, G, ν, M as the constructor computed them) form an admissible problem
+(`EPV.Blake.Admissible`: one positive-definite isotropic material, ρ₀, a, P₀ > 0) -/
+theorem initGNu_admissible (p : BlakeInitGNu.P) (h : BlakeInitGNu.outcome p = .ok) :
+    EPV.Blake.Admissible
+      { cavity_radius := p.cavity_radius, lame_mod := BlakeInitGNu.lame_mod p, long_mod := BlakeInitGNu.long_mod p,
+        poisson_ratio := BlakeInitGNu.poisson_ratio p, pressure_scale := p.pressure_scale, ref_density := p.ref_density,
+        shear_mod := BlakeInitGNu.shear_mod p } := by
+  obtain ⟨m, -, -⟩ := initGNu_ok p h
+  obtain ⟨-, hρ, ha, hP⟩ := (initGNu_bridge p h).2.1
+  exact ⟨⟨_, _, m⟩, hρ, ha, hP⟩
+
 /-- pair (G, ν): the constructor returns or raises `ValueError`, nothing else -/
 theorem initGNu_total (p : BlakeInitGNu.P) : BlakeInitGNu.outcome p = .ok ∨ BlakeInitGNu.outcome p = .raise "ValueError" := by
+  unfold BlakeInitGNu.outcome
   epv_ok_or_valueError
 
 theorem initGNu_raise (p : BlakeInitGNu.P) (h : BlakeInitGNu.outcome p ≠ .ok) : BlakeInitGNu.outcome p = .raise "ValueError" :=
   (initGNu_total p).resolve_left h
 
-/-- pair (G, K), constructor: an accepting path ends with one positive-definite isotropic material that
-reproduces the two supplied values; the problem parameters and the supplied values are the documented
-admissible ones -/
+/-- pair (G, K): an accepting path of the constructor is an accepting path of `set_elastic_params` on the two
+supplied values, followed by the four problem-parameter checks; the six attributes are what it returned -/
+theorem initGK_bridge (p : BlakeInitGK.P) (h : BlakeInitGK.outcome p = .ok) :
+    BlakeModGK.outcome { shear_mod := p.shear_mod, bulk_mod := p.bulk_mod } = .ok ∧ DocumentedProblem p.geometry p.ref_density p.cavity_radius p.pressure_scale
+    ∧ BlakeInitGK.lame_mod p = BlakeModGK.lame_mod { shear_mod := p.shear_mod, bulk_mod := p.bulk_mod }
+    ∧ BlakeInitGK.shear_mod p = BlakeModGK.shear_mod { shear_mod := p.shear_mod, bulk_mod := p.bulk_mod }
+    ∧ BlakeInitGK.youngs_mod p = BlakeModGK.youngs_mod { shear_mod := p.shear_mod, bulk_mod := p.bulk_mod }
+    ∧ BlakeInitGK.poisson_ratio p = BlakeModGK.poisson_ratio { shear_mod := p.shear_mod, bulk_mod := p.bulk_mod }
+    ∧ BlakeInitGK.bulk_mod p = BlakeModGK.bulk_mod { shear_mod := p.shear_mod, bulk_mod := p.bulk_mod }
+    ∧ BlakeInitGK.long_mod p = BlakeModGK.long_mod { shear_mod := p.shear_mod, bulk_mod := p.bulk_mod } := by
+  unfold BlakeInitGK.outcome at h
+  unfold BlakeInitGK.lame_mod BlakeInitGK.shear_mod BlakeInitGK.youngs_mod BlakeInitGK.poisson_ratio BlakeInitGK.bulk_mod BlakeInitGK.long_mod
+  epv_walk (
+    simp only [epv_tree, epv_cond, DocumentedProblem] at *
+    simp only [*, if_true, if_false, not_true_eq_false, not_false_eq_true, and_self, true_and]
+    exact ⟨rfl, rfl, rfl, rfl, rfl, rfl⟩)
+
+/-- pair (G, K), constructor: on acceptance the six attributes are one positive-definite isotropic material that
+reproduces the two supplied values (the hypotheses of the C15 field theorems hold for the constructed solver) -/
 theorem initGK_ok (p : BlakeInitGK.P) (h : BlakeInitGK.outcome p = .ok) :
     IsoMaterial (BlakeInitGK.lame_mod p) (BlakeInitGK.shear_mod p) (BlakeInitGK.youngs_mod p) (BlakeInitGK.poisson_ratio p) (BlakeInitGK.bulk_mod p) (BlakeInitGK.long_mod p)
-      ∧ BlakeInitGK.shear_mod p = p.shear_mod ∧ BlakeInitGK.bulk_mod p = p.bulk_mod ∧ DocumentedProblem p.geometry p.ref_density p.cavity_radius p.pressure_scale
-      ∧ Kind.GivenOk .shear p.shear_mod ∧ Kind.GivenOk .bulk p.bulk_mod := by
-  epv_paths (
-    simp only [epv_cond] at *
-    simp only [epv_leaf, Kind.GivenOk]
-    simp only [not_le, not_lt] at *
-    have h1 : 0 < 3 * p.bulk_mod + p.shear_mod := by linarith
-    have h2 : 0 < 6 * p.bulk_mod + 2 * p.shear_mod := by linarith
-    refine ⟨IsoMaterial.of_mul ?_ ?_ ?_ ?_ ?_ ?_, ?_, ?_, ⟨?_, ?_, ?_, ?_⟩, ?_, ?_⟩ <;> first | trivial | assumption | linarith | ring1 | (fsimp <;> ring1) | exact ⟨by linarith, by linarith⟩)
+      ∧ BlakeInitGK.shear_mod p = p.shear_mod ∧ BlakeInitGK.bulk_mod p = p.bulk_mod := by
+  obtain ⟨hm, -, e1, e2, e3, e4, e5, e6⟩ := initGK_bridge p h
+  rw [e1, e2, e3, e4, e5, e6]
+  exact EPV.Blake.modGK_ok _ hm
 
 /-- pair (G, K): the constructor **accepts ⇔ the input is documented-valid** -/
 theorem initGK_accepts_iff (p : BlakeInitGK.P) :
     BlakeInitGK.outcome p = .ok ↔ (DocumentedPair .shear .bulk p.shear_mod p.bulk_mod) ∧ DocumentedProblem p.geometry p.ref_density p.cavity_radius p.pressure_scale := by
   constructor
   · intro h
-    obtain ⟨m, e1, e2, d, g1, g2⟩ := initGK_ok p h
-    refine ⟨⟨g1, g2, _, _, m.shear_pos, m.bulk_pos, ?_, ?_⟩, d⟩
-    · rw [← e1]; exact m.kind_of.2.1
-    · rw [← e2]; exact m.kind_of.2.2.2.2.1
+    obtain ⟨hm, d, -⟩ := initGK_bridge p h
+    exact ⟨(EPV.Blake.modGK_accepts_iff _).mp hm, d⟩
   · rintro ⟨⟨hx, hy, L, G, hG, hB, h1, h2⟩, hgeo, hrho, hrad, hprs⟩
     simp only [Kind.of, Kind.GivenOk] at hx hy h1 h2
     have hLG : 0 < L + G := by linarith
@@ -214,55 +242,59 @@ theorem initGK_accepts_iff (p : BlakeInitGK.P) :
     have hc8 : BlakeInitGK.c8 p := by simp only [epv_cond]; exact hprs
     simp only [epv_tree, hc0, hc1, hc3, hc4, hc5, hc6, hc7, hc8, if_true, if_false, ite_self]
 
+/-- pair (G, K): **the constructed solver is in the domain of the C15 field theorems** — the attributes `_run` reads
+(a, ρ₀, P₀ as supplied, λ, G, ν, M as the constructor computed them) form an admissible problem
+(`EPV.Blake.Admissible`: one positive-definite isotropic material, ρ₀, a, P₀ > 0) -/
+theorem initGK_admissible (p : BlakeInitGK.P) (h : BlakeInitGK.outcome p = .ok) :
+    EPV.Blake.Admissible
+      { cavity_radius := p.cavity_radius, lame_mod := BlakeInitGK.lame_mod p, long_mod := BlakeInitGK.long_mod p,
+        poisson_ratio := BlakeInitGK.poisson_ratio p, pressure_scale := p.pressure_scale, ref_density := p.ref_density,
+        shear_mod := BlakeInitGK.shear_mod p } := by
+  obtain ⟨m, -, -⟩ := initGK_ok p h
+  obtain ⟨-, hρ, ha, hP⟩ := (initGK_bridge p h).2.1
+  exact ⟨⟨_, _, m⟩, hρ, ha, hP⟩
+
 /-- pair (G, K): the constructor returns or raises `ValueError`, nothing else -/
 theorem initGK_total (p : BlakeInitGK.P) : BlakeInitGK.outcome p = .ok ∨ BlakeInitGK.outcome p = .raise "ValueError" := by
+  unfold BlakeInitGK.outcome
   epv_ok_or_valueError
 
 theorem initGK_raise (p : BlakeInitGK.P) (h : BlakeInitGK.outcome p ≠ .ok) : BlakeInitGK.outcome p = .raise "ValueError" :=
   (initGK_total p).resolve_left h
 
-/-- pair (G, M), constructor: an accepting path ends with one positive-definite isotropic material that
-reproduces the two supplied values; the problem parameters and the supplied values are the documented
-admissible ones -/
+/-- pair (G, M): an accepting path of the constructor is an accepting path of `set_elastic_params` on the two
+supplied values, followed by the four problem-parameter checks; the six attributes are what it returned -/
+theorem initGM_bridge (p : BlakeInitGM.P) (h : BlakeInitGM.outcome p = .ok) :
+    BlakeModGM.outcome { shear_mod := p.shear_mod, long_mod := p.long_mod } = .ok ∧ DocumentedProblem p.geometry p.ref_density p.cavity_radius p.pressure_scale
+    ∧ BlakeInitGM.lame_mod p = BlakeModGM.lame_mod { shear_mod := p.shear_mod, long_mod := p.long_mod }
+    ∧ BlakeInitGM.shear_mod p = BlakeModGM.shear_mod { shear_mod := p.shear_mod, long_mod := p.long_mod }
+    ∧ BlakeInitGM.youngs_mod p = BlakeModGM.youngs_mod { shear_mod := p.shear_mod, long_mod := p.long_mod }
+    ∧ BlakeInitGM.poisson_ratio p = BlakeModGM.poisson_ratio { shear_mod := p.shear_mod, long_mod := p.long_mod }
+    ∧ BlakeInitGM.bulk_mod p = BlakeModGM.bulk_mod { shear_mod := p.shear_mod, long_mod := p.long_mod }
+    ∧ BlakeInitGM.long_mod p = BlakeModGM.long_mod { shear_mod := p.shear_mod, long_mod := p.long_mod } := by
+  unfold BlakeInitGM.outcome at h
+  unfold BlakeInitGM.lame_mod BlakeInitGM.shear_mod BlakeInitGM.youngs_mod BlakeInitGM.poisson_ratio BlakeInitGM.bulk_mod BlakeInitGM.long_mod
+  epv_walk (
+    simp only [epv_tree, epv_cond, DocumentedProblem] at *
+    simp only [*, if_true, if_false, not_true_eq_false, not_false_eq_true, and_self, true_and]
+    exact ⟨rfl, rfl, rfl, rfl, rfl, rfl⟩)
+
+/-- pair (G, M), constructor: on acceptance the six attributes are one positive-definite isotropic material that
+reproduces the two supplied values (the hypotheses of the C15 field theorems hold for the constructed solver) -/
 theorem initGM_ok (p : BlakeInitGM.P) (h : BlakeInitGM.outcome p = .ok) :
     IsoMaterial (BlakeInitGM.lame_mod p) (BlakeInitGM.shear_mod p) (BlakeInitGM.youngs_mod p) (BlakeInitGM.poisson_ratio p) (BlakeInitGM.bulk_mod p) (BlakeInitGM.long_mod p)
-      ∧ BlakeInitGM.shear_mod p = p.shear_mod ∧ BlakeInitGM.long_mod p = p.long_mod ∧ DocumentedProblem p.geometry p.ref_density p.cavity_radius p.pressure_scale
-      ∧ Kind.GivenOk .shear p.shear_mod ∧ Kind.GivenOk .long p.long_mod := by
-  epv_paths (
-    simp only [epv_cond] at *
-    simp only [epv_leaf, Kind.GivenOk]
-    simp only [not_le, not_lt] at *
-    have hG : 0 < p.shear_mod := by linarith
-    have hne : p.long_mod - p.shear_mod ≠ 0 := by
-      intro h0
-      have hh := ‹_ < |p.long_mod - p.shear_mod|›
-      rw [h0, abs_zero] at hh
-      have : (0 : ℝ) ≤ 0 + 3961408125713217 / 39614081257132168796771975168 * |p.shear_mod| := by positivity
-      linarith
-    have hgt : p.shear_mod < p.long_mod := by
-      rcases lt_or_gt_of_ne hne with hlt | hgt
-      · exfalso
-        have hneg : 2 * p.long_mod - 2 * p.shear_mod < 0 := by linarith
-        have := (div_lt_iff_of_neg hneg).mp ‹_ < (1:ℝ) / 2›
-        linarith
-      · linarith
-    have hpos : 0 < 2 * p.long_mod - 2 * p.shear_mod := by linarith
-    have h34 : 0 < 3 * p.long_mod - 4 * p.shear_mod := by
-      have := (lt_div_iff₀ hpos).mp ‹(-1 : ℝ) < _›
-      linarith
-    have h1 : 2 * p.long_mod - 2 * p.shear_mod ≠ 0 := ne_of_gt hpos
-    have h2 : p.long_mod - 2 * p.shear_mod + p.shear_mod ≠ 0 := by intro h0; linarith
-    refine ⟨IsoMaterial.of_mul ?_ ?_ ?_ ?_ ?_ ?_, ?_, ?_, ⟨?_, ?_, ?_, ?_⟩, ?_, ?_⟩ <;> first | trivial | assumption | linarith | ring1 | (fsimp <;> ring1) | exact ⟨by linarith, by linarith⟩)
+      ∧ BlakeInitGM.shear_mod p = p.shear_mod ∧ BlakeInitGM.long_mod p = p.long_mod := by
+  obtain ⟨hm, -, e1, e2, e3, e4, e5, e6⟩ := initGM_bridge p h
+  rw [e1, e2, e3, e4, e5, e6]
+  exact EPV.Blake.modGM_ok _ hm
 
 /-- pair (G, M): the constructor **accepts ⇔ the input is documented-valid** -/
 theorem initGM_accepts_iff (p : BlakeInitGM.P) :
     BlakeInitGM.outcome p = .ok ↔ (DocumentedPair .shear .long p.shear_mod p.long_mod) ∧ DocumentedProblem p.geometry p.ref_density p.cavity_radius p.pressure_scale := by
   constructor
   · intro h
-    obtain ⟨m, e1, e2, d, g1, g2⟩ := initGM_ok p h
-    refine ⟨⟨g1, g2, _, _, m.shear_pos, m.bulk_pos, ?_, ?_⟩, d⟩
-    · rw [← e1]; exact m.kind_of.2.1
-    · rw [← e2]; exact m.kind_of.2.2.2.2.2
+    obtain ⟨hm, d, -⟩ := initGM_bridge p h
+    exact ⟨(EPV.Blake.modGM_accepts_iff _).mp hm, d⟩
   · rintro ⟨⟨hx, hy, L, G, hG, hB, h1, h2⟩, hgeo, hrho, hrad, hprs⟩
     simp only [Kind.of, Kind.GivenOk] at hx hy h1 h2
     have hLG : 0 < L + G := by linarith
@@ -293,53 +325,59 @@ theorem initGM_accepts_iff (p : BlakeInitGM.P) :
     have hc10 : BlakeInitGM.c10 p := by simp only [epv_cond]; exact hprs
     simp only [epv_tree, hc0, hc1, hc2, hc4, hc5, hc6, hc7, hc8, hc9, hc10, if_true, if_false, ite_self]
 
+/-- pair (G, M): **the constructed solver is in the domain of the C15 field theorems** — the attributes `_run` reads
+(a, ρ₀, P₀ as supplied, λ, G, ν, M as the constructor computed them) form an admissible problem
+(`EPV.Blake.Admissible`: one positive-definite isotropic material, ρ₀, a, P₀ > 0) -/
+theorem initGM_admissible (p : BlakeInitGM.P) (h : BlakeInitGM.outcome p = .ok) :
+    EPV.Blake.Admissible
+      { cavity_radius := p.cavity_radius, lame_mod := BlakeInitGM.lame_mod p, long_mod := BlakeInitGM.long_mod p,
+        poisson_ratio := BlakeInitGM.poisson_ratio p, pressure_scale := p.pressure_scale, ref_density := p.ref_density,
+        shear_mod := BlakeInitGM.shear_mod p } := by
+  obtain ⟨m, -, -⟩ := initGM_ok p h
+  obtain ⟨-, hρ, ha, hP⟩ := (initGM_bridge p h).2.1
+  exact ⟨⟨_, _, m⟩, hρ, ha, hP⟩
+
 /-- pair (G, M): the constructor returns or raises `ValueError`, nothing else -/
 theorem initGM_total (p : BlakeInitGM.P) : BlakeInitGM.outcome p = .ok ∨ BlakeInitGM.outcome p = .raise "ValueError" := by
+  unfold BlakeInitGM.outcome
   epv_ok_or_valueError
 
 theorem initGM_raise (p : BlakeInitGM.P) (h : BlakeInitGM.outcome p ≠ .ok) : BlakeInitGM.outcome p = .raise "ValueError" :=
   (initGM_total p).resolve_left h
 
-/-- pair (E, ν), constructor: an accepting path ends with one positive-definite isotropic material that
-reproduces the two supplied values; the problem parameters and the supplied values are the documented
-admissible ones -/
+/-- pair (E, ν): an accepting path of the constructor is an accepting path of `set_elastic_params` on the two
+supplied values, followed by the four problem-parameter checks; the six attributes are what it returned -/
+theorem initENu_bridge (p : BlakeInitENu.P) (h : BlakeInitENu.outcome p = .ok) :
+    BlakeModENu.outcome { youngs_mod := p.youngs_mod, poisson_ratio := p.poisson_ratio } = .ok ∧ DocumentedProblem p.geometry p.ref_density p.cavity_radius p.pressure_scale
+    ∧ BlakeInitENu.lame_mod p = BlakeModENu.lame_mod { youngs_mod := p.youngs_mod, poisson_ratio := p.poisson_ratio }
+    ∧ BlakeInitENu.shear_mod p = BlakeModENu.shear_mod { youngs_mod := p.youngs_mod, poisson_ratio := p.poisson_ratio }
+    ∧ BlakeInitENu.youngs_mod p = BlakeModENu.youngs_mod { youngs_mod := p.youngs_mod, poisson_ratio := p.poisson_ratio }
+    ∧ BlakeInitENu.poisson_ratio p = BlakeModENu.poisson_ratio { youngs_mod := p.youngs_mod, poisson_ratio := p.poisson_ratio }
+    ∧ BlakeInitENu.bulk_mod p = BlakeModENu.bulk_mod { youngs_mod := p.youngs_mod, poisson_ratio := p.poisson_ratio }
+    ∧ BlakeInitENu.long_mod p = BlakeModENu.long_mod { youngs_mod := p.youngs_mod, poisson_ratio := p.poisson_ratio } := by
+  unfold BlakeInitENu.outcome at h
+  unfold BlakeInitENu.lame_mod BlakeInitENu.shear_mod BlakeInitENu.youngs_mod BlakeInitENu.poisson_ratio BlakeInitENu.bulk_mod BlakeInitENu.long_mod
+  epv_walk (
+    simp only [epv_tree, epv_cond, DocumentedProblem] at *
+    simp only [*, if_true, if_false, not_true_eq_false, not_false_eq_true, and_self, true_and]
+    exact ⟨rfl, rfl, rfl, rfl, rfl, rfl⟩)
+
+/-- pair (E, ν), constructor: on acceptance the six attributes are one positive-definite isotropic material that
+reproduces the two supplied values (the hypotheses of the C15 field theorems hold for the constructed solver) -/
 theorem initENu_ok (p : BlakeInitENu.P) (h : BlakeInitENu.outcome p = .ok) :
     IsoMaterial (BlakeInitENu.lame_mod p) (BlakeInitENu.shear_mod p) (BlakeInitENu.youngs_mod p) (BlakeInitENu.poisson_ratio p) (BlakeInitENu.bulk_mod p) (BlakeInitENu.long_mod p)
-      ∧ BlakeInitENu.youngs_mod p = p.youngs_mod ∧ BlakeInitENu.poisson_ratio p = p.poisson_ratio ∧ DocumentedProblem p.geometry p.ref_density p.cavity_radius p.pressure_scale
-      ∧ Kind.GivenOk .youngs p.youngs_mod ∧ Kind.GivenOk .poisson p.poisson_ratio := by
-  epv_paths (
-    simp only [epv_cond] at *
-    simp only [epv_leaf, Kind.GivenOk]
-    simp only [not_le, not_lt] at *
-    have hE : 0 < p.youngs_mod := by linarith
-    have h1p : 0 < 1 - 2 * p.poisson_ratio := by linarith
-    have h1 : 1 - 2 * p.poisson_ratio ≠ 0 := ne_of_gt h1p
-    have hn : 0 < 1 + p.poisson_ratio := by linarith
-    have hn0 : 1 + p.poisson_ratio ≠ 0 := ne_of_gt hn
-    have e1 : 3 * (p.youngs_mod * p.poisson_ratio / ((1 + p.poisson_ratio) * (1 - 2 * p.poisson_ratio)))
-          + 2 * (1 / 2 * p.youngs_mod / (1 + p.poisson_ratio))
-        = p.youngs_mod / (1 - 2 * p.poisson_ratio) := by fsimp; ring1
-    have e2 : p.youngs_mod * p.poisson_ratio / ((1 + p.poisson_ratio) * (1 - 2 * p.poisson_ratio))
-          + 1 / 2 * p.youngs_mod / (1 + p.poisson_ratio)
-        = p.youngs_mod / (2 * ((1 + p.poisson_ratio) * (1 - 2 * p.poisson_ratio))) := by fsimp; ring1
-    have h2 : p.youngs_mod * p.poisson_ratio / ((1 + p.poisson_ratio) * (1 - 2 * p.poisson_ratio))
-          + 1 / 2 * p.youngs_mod / (1 + p.poisson_ratio) ≠ 0 := by
-      rw [e2]; positivity
-    have h3 : 0 < 3 * (p.youngs_mod * p.poisson_ratio / ((1 + p.poisson_ratio) * (1 - 2 * p.poisson_ratio)))
-          + 2 * (1 / 2 * p.youngs_mod / (1 + p.poisson_ratio)) := by
-      rw [e1]; positivity
-    have h4 : 0 < 1 / 2 * p.youngs_mod / (1 + p.poisson_ratio) := by positivity
-    refine ⟨IsoMaterial.of_mul ?_ ?_ ?_ ?_ ?_ ?_, ?_, ?_, ⟨?_, ?_, ?_, ?_⟩, ?_, ?_⟩ <;> first | trivial | assumption | linarith | ring1 | (fsimp <;> ring1) | exact ⟨by linarith, by linarith⟩)
+      ∧ BlakeInitENu.youngs_mod p = p.youngs_mod ∧ BlakeInitENu.poisson_ratio p = p.poisson_ratio := by
+  obtain ⟨hm, -, e1, e2, e3, e4, e5, e6⟩ := initENu_bridge p h
+  rw [e1, e2, e3, e4, e5, e6]
+  exact EPV.Blake.modENu_ok _ hm
 
 /-- pair (E, ν): the constructor **accepts ⇔ the input is documented-valid** -/
 theorem initENu_accepts_iff (p : BlakeInitENu.P) :
     BlakeInitENu.outcome p = .ok ↔ (DocumentedPair .youngs .poisson p.youngs_mod p.poisson_ratio) ∧ DocumentedProblem p.geometry p.ref_density p.cavity_radius p.pressure_scale := by
   constructor
   · intro h
-    obtain ⟨m, e1, e2, d, g1, g2⟩ := initENu_ok p h
-    refine ⟨⟨g1, g2, _, _, m.shear_pos, m.bulk_pos, ?_, ?_⟩, d⟩
-    · rw [← e1]; exact m.kind_of.2.2.1
-    · rw [← e2]; exact m.kind_of.2.2.2.1
+    obtain ⟨hm, d, -⟩ := initENu_bridge p h
+    exact ⟨(EPV.Blake.modENu_accepts_iff _).mp hm, d⟩
   · rintro ⟨⟨hx, hy, L, G, hG, hB, h1, h2⟩, hgeo, hrho, hrad, hprs⟩
     simp only [Kind.of, Kind.GivenOk] at hx hy h1 h2
     have hLG : 0 < L + G := by linarith
@@ -361,11 +399,28 @@ theorem initENu_accepts_iff (p : BlakeInitENu.P) :
     have hc7 : BlakeInitENu.c7 p := by simp only [epv_cond]; exact hprs
     simp only [epv_tree, hc0, hc1, hc2, hc3, hc4, hc5, hc6, hc7, if_true, if_false, ite_self]
 
+/-- pair (E, ν): **the constructed solver is in the domain of the C15 field theorems** — the attributes `_run` reads
+(a, ρ₀, P₀ as supplied, λ, G, ν, M as the constructor computed them) form an admissible problem
+(`EPV.Blake.Admissible`: one positive-definite isotropic material, ρ₀, a, P₀ > 0) -/
+theorem initENu_admissible (p : BlakeInitENu.P) (h : BlakeInitENu.outcome p = .ok) :
+    EPV.Blake.Admissible
+      { cavity_radius := p.cavity_radius, lame_mod := BlakeInitENu.lame_mod p, long_mod := BlakeInitENu.long_mod p,
+        poisson_ratio := BlakeInitENu.poisson_ratio p, pressure_scale := p.pressure_scale, ref_density := p.ref_density,
+        shear_mod := BlakeInitENu.shear_mod p } := by
+  obtain ⟨m, -, -⟩ := initENu_ok p h
+  obtain ⟨-, hρ, ha, hP⟩ := (initENu_bridge p h).2.1
+  exact ⟨⟨_, _, m⟩, hρ, ha, hP⟩
+
 /-- pair (E, ν): the constructor returns or raises `ValueError`, nothing else -/
 theorem initENu_total (p : BlakeInitENu.P) : BlakeInitENu.outcome p = .ok ∨ BlakeInitENu.outcome p = .raise "ValueError" := by
+  unfold BlakeInitENu.outcome
   epv_ok_or_valueError
 
 theorem initENu_raise (p : BlakeInitENu.P) (h : BlakeInitENu.outcome p ≠ .ok) : BlakeInitENu.outcome p = .raise "ValueError" :=
   (initENu_total p).resolve_left h
+
+/-- non-vacuity: the default problem, specified through the pair (G, K), is accepted -/
+example : BlakeInitGK.outcome { shear_mod := 25000000000, bulk_mod := 125000000000 / 3, geometry := 3, ref_density := 3000, cavity_radius := 1 / 10, pressure_scale := 1000000 } = .ok := by
+  simp only [epv_tree, epv_cond]; norm_num
 
 end EPV.C20
